@@ -76,51 +76,67 @@ theorem semi_sharedTail (qt : QType) : ';' ∉ sharedTail qt := by cases qt <;> 
 theorem semi_instanceTail (qt : QType) : ';' ∉ instanceTail qt := by cases qt <;> decide
 theorem semi_replyTail (qt : QType) : ';' ∉ replyTail qt := by cases qt <;> decide
 
-/-- the queue a plain durable node declares, and the subscription made on it -/
-def plainQueue (n : Str) (qt : QType) (exclusive arguments : Json) : List Op :=
-  [.queueDeclare (.str n) (.bool false) (.bool true) (.bool false) (.bool false) (queueArgs qt),
-   .consume (.str n) exclusive arguments]
+/-- what a Consumer on a plain durable node `n` sends, in order: the constructor's prefetch, the passive probe
+for an exchange called `n`, the queue declaration, the prefetch the engine then sets (if it does), the
+subscription -/
+def plainQueue (n : Str) (qt : QType) (cap : Option Nat) (exclusive arguments : Json) : List Op :=
+  [.qos defaultCapacity, .probe n,
+   .queueDeclare (.str n) (.bool false) (.bool true) (.bool false) (.bool false) (queueArgs qt)] ++
+  capacityOp cap ++ [.consume (.str n) (.bool false) exclusive arguments]
 
+/-- what those frames create: one durable, non-exclusive, non-auto-delete queue and one subscription -/
+def plainEntities (n : Str) (qt : QType) (exclusive arguments : Json) : List Entity :=
+  [.queue (.str n) (.bool true) (.bool false) (.bool false) (queueArgs qt),
+   .subscription (.str n) (.bool false) exclusive arguments]
+
+theorem created_plainQueue (n : Str) (qt : QType) (cap : Option Nat) (x g : Json) :
+    created (plainQueue n qt cap x g) = plainEntities n qt x g := by
+  cases cap <;> simp [plainQueue, plainEntities, capacityOp, created, Op.creates, Json.truthy]
 
 section eval
-variable (env : Env) (n : Str)
+variable (env : Env) (n : Str) (cap : Option Nat)
 
 theorem consumer_shared_eval (qt : QType) (hn : n ≠ []) (hx : n ∉ env.exchanges) :
-    (match destOf n [] (optsShared qt) with
-      | .ok d => consumerOpen env d
-      | .error e => .error e) = .ok (plainQueue n qt (.bool false) .null, n) := by
+    consumerOf env cap (destOf n [] (optsShared qt)) = .ok (plainQueue n qt cap (.bool false) .null, n) := by
   cases qt <;>
   simp [optsShared, destOf, nodePart, truthyObj, dget, objGet, nonEmptyObj, nonEmptyArr, isStr, hn, hx, Json.truthy,
     bind, Except.bind, pure, Except.pure, queueArgs, objSet, declare0, linkDeclare0, linkSubscribe0, upd,
-    consumerOpen, exchangeOp, bindOps, strOf, plainQueue]
+    consumerOf, consumerOpen, listenOp, probeOp, exchangeOp, bindOps, strOf, plainQueue]
 
 theorem consumer_instance_eval (qt : QType) (hn : n ≠ []) (hx : n ∉ env.exchanges) :
-    (match destOf n [] (optsInstance qt) with
-      | .ok d => consumerOpen env d
-      | .error e => .error e) = .ok (plainQueue n qt (.bool true) .null, n) := by
+    consumerOf env cap (destOf n [] (optsInstance qt)) = .ok (plainQueue n qt cap (.bool true) .null, n) := by
   cases qt <;>
   simp [optsInstance, destOf, nodePart, truthyObj, dget, objGet, nonEmptyObj, nonEmptyArr, isStr, hn, hx, Json.truthy,
     bind, Except.bind, pure, Except.pure, linkPart, queueArgs, objSet, declare0, linkDeclare0, linkSubscribe0, upd,
-    consumerOpen, exchangeOp, bindOps, strOf, plainQueue]
+    consumerOf, consumerOpen, listenOp, probeOp, exchangeOp, bindOps, strOf, plainQueue]
 
 theorem consumer_reply_eval (qt : QType) (hn : n ≠ []) (hx : n ∉ env.exchanges) :
-    (match destOf n [] (optsReply qt) with
-      | .ok d => consumerOpen env d
-      | .error e => .error e) = .ok (plainQueue n qt (.bool false) (.obj [(sXPriority, .num 10)]), n) := by
+    consumerOf env cap (destOf n [] (optsReply qt)) =
+      .ok (plainQueue n qt cap (.bool false) (.obj [(sXPriority, .num 10)]), n) := by
   cases qt <;>
   simp [optsReply, destOf, nodePart, truthyObj, dget, objGet, nonEmptyObj, nonEmptyArr, isStr, hn, hx, Json.truthy,
     bind, Except.bind, pure, Except.pure, linkPart, queueArgs, objSet, declare0, linkDeclare0, linkSubscribe0, upd,
-    consumerOpen, exchangeOp, bindOps, strOf, plainQueue, sXPriority]
+    consumerOf, consumerOpen, listenOp, probeOp, exchangeOp, bindOps, strOf, plainQueue, sXPriority]
 
-/-- a Producer on a bare clean name that is not an exchange: nothing declared, default exchange, the name
-as the default subject -/
+/-- a Producer on a bare clean name that is not an exchange: only the passive probe, nothing declared, default
+exchange, the name as the default subject -/
 theorem producer_name_eval (hn : n ≠ []) (hx : n ∉ env.exchanges) :
     (match destOf n [] (.obj []) with
       | .ok d => Except.ok (producerOpen env d)
-      | .error e => .error e) = (.ok ([], ⟨[], n⟩) : Except AErr (List Op × Target)) := by
+      | .error e => .error e) = (.ok ([.probe n], ⟨[], n⟩) : Except AErr (List Op × Target)) := by
   simp [destOf, truthyObj, dget, objGet, Json.truthy, bind, Except.bind, pure, Except.pure, producerOpen, exchangeOp,
-    declare0, hn, hx]
+    probeOp, declare0, hn, hx]
 
 end eval
+
+/-- a frame list made of probes and prefetch settings creates nothing -/
+theorem created_append (a b : List Op) : created (a ++ b) = created a ++ created b := by
+  induction a with
+  | nil => rfl
+  | cons x xs ih => simp [created, ih]
+
+theorem created_probeOp (d : Dest) : created (probeOp d) = [] := by
+  unfold probeOp
+  split <;> rfl
 
 end Asl.Amqp
